@@ -409,7 +409,7 @@ def child_main(sb, world, plan, wfd):
         sys.argv = ["trash-" + world["cmd"]] + [os.fsdecode(sb.to_real(a)) for a in world.get("argv", [])]
         out_b, err_b = io.BytesIO(), io.BytesIO()
         sys.stdout = io.TextIOWrapper(out_b, encoding="utf-8", errors="surrogateescape", write_through=True)
-        sys.stderr = io.TextIOWrapper(err_b, encoding="utf-8", errors="backslashreplace", write_through=True)
+        sys.stderr = io.TextIOWrapper(err_b, encoding="utf-8", errors="surrogateescape", write_through=True)
         stdin = world.get("stdin")
         sys.stdin = io.TextIOWrapper(io.BytesIO(stdin if stdin is not None else b""), encoding="utf-8",
                                      errors="surrogateescape")
